@@ -62,6 +62,7 @@ type c14cfg struct {
 	nUp        int
 	concurrent int
 	subset     []int // indexes used (nil = all)
+	subsets    [][]int // every tag subset configured on this forward, in configuration order
 	tags       []string
 	calls      int
 	invs       []*c14inv
@@ -79,6 +80,7 @@ type c14res struct {
 	Err     error
 	CtxEnd  time.Duration // -1: none
 	CtxKind string
+	List    []int // upstream list of the executable used (nil = all)
 }
 
 func (u *c14up) ExchangeContext(ctx context.Context, m []byte) (*[]byte, error) {
@@ -144,7 +146,22 @@ func c14Setup(rc *RunCtx) simrt.Config {
 			c.subset = append(c.subset, r.Choose(c.nUp))
 		}
 	}
+	if c.subset != nil {
+		// several tag subsets configured on one forward plugin ("$fwd t2", "$fwd t1 t0", ...),
+		// used in any order beside the plain forward
+		c.subsets = append(c.subsets, c.subset)
+		for n := r.Choose(3); n > 0; n-- {
+			var ss []int
+			for i := 1 + r.Choose(c.nUp); i > 0; i-- {
+				ss = append(ss, r.Choose(c.nUp))
+			}
+			c.subsets = append(c.subsets, ss)
+		}
+	}
 	c.calls = 1 + r.Choose(3)
+	if len(c.subsets) > 0 {
+		c.calls = 1 + r.Choose(5)
+	}
 	switch r.Choose(3) {
 	case 0:
 		c.delays = []time.Duration{0, time.Millisecond}
@@ -160,6 +177,7 @@ func c14Setup(rc *RunCtx) simrt.Config {
 	rc.Cfg["upstreams"] = c.nUp
 	rc.Cfg["concurrent"] = c.concurrent
 	rc.Cfg["subset"] = c.subset
+	rc.Cfg["subsets"] = len(c.subsets)
 	rc.Cfg["calls"] = c.calls
 	rc.priv = c
 	return cfg
@@ -172,26 +190,46 @@ func c14Main(rc *RunCtx) {
 		ups = append(ups, &c14up{idx: i, rc: rc, c: c})
 	}
 	f := fastforward.NewForwardForVerif(ups, c.tags, c.concurrent)
-	var exec sequence.Executable = f
-	if c.subset != nil {
+	execs := []sequence.Executable{f}
+	lists := [][]int{nil}
+	for _, ss := range c.subsets {
 		var names []string
-		for _, i := range c.subset {
+		for _, i := range ss {
 			names = append(names, c.tags[i])
 		}
 		e, err := f.QuickConfigureExec(strings.Join(names, " "))
 		if err != nil {
 			panic(err)
 		}
-		exec = e.(sequence.Executable)
+		execs = append(execs, e.(sequence.Executable))
+		lists = append(lists, ss)
+	}
+	if len(c.subsets) > 0 && simrt.Choose(3) == 0 {
+		e, err := f.QuickConfigureExec("") // no tags: all upstreams
+		if err != nil {
+			panic(err)
+		}
+		execs = append(execs, e.(sequence.Executable))
+		lists = append(lists, nil)
 	}
 	for call := 0; call < c.calls && rc.Viol == nil; call++ {
 		c.curCall = call
+		var exec sequence.Executable = f
+		var list []int
+		if len(c.subsets) > 0 {
+			// the first call goes to the first subset (as before); later ones to any
+			xi := 1
+			if call > 0 {
+				xi = simrt.Choose(len(execs))
+			}
+			exec, list = execs[xi], lists[xi]
+		}
 		q := mkQuery(fmt.Sprintf("q%d.test.", call), dns.TypeA, uint16(simrt.Choose(65536)))
 		if simrt.Choose(2) == 0 {
 			q.SetEdns0(4096, simrt.Choose(2) == 0)
 		}
 		qCtx := query_context.NewContext(q)
-		res := &c14res{Call: call, Query: packOrPanic(qCtx.Q()), CtxEnd: -1, CtxKind: "none"}
+		res := &c14res{Call: call, Query: packOrPanic(qCtx.Q()), CtxEnd: -1, CtxKind: "none", List: list}
 		ctx := context.Background()
 		var cancel context.CancelFunc
 		switch simrt.Choose(4) {
@@ -237,7 +275,7 @@ func c14Check(rc *RunCtx, c *c14cfg, res *c14res) {
 		}
 	}
 	// which upstreams received the query: k cyclically consecutive positions
-	list := c.subset
+	list := res.List
 	if list == nil {
 		for i := 0; i < c.nUp; i++ {
 			list = append(list, i)
